@@ -1,6 +1,7 @@
 use super::SearchControl;
 use super::SearchHandler;
 use crate::DbError;
+use crate::DbErrorType;
 use crate::StorageData;
 use crate::collections::bit_set::BitSet;
 use crate::graph::GraphData;
@@ -74,6 +75,13 @@ where
         index: SearchIndex,
         handler: &mut Handler,
     ) -> Result<bool, DbError> {
+        if self.graph.capacity()? <= index.index.as_u64() {
+            return Err(DbError::graph(
+                DbErrorType::InvalidIndex,
+                format!("Graph index ({}) out of bounds", index.index.0),
+            ));
+        }
+
         if !self.visit_index(&index) {
             self.process_unvisited_index(index, handler)
         } else {
